@@ -205,7 +205,7 @@ pub fn run(args: &[String]) -> i32 {
                         first_ok = Some((p.clone(), v.clone()));
                     } else if let Some((p0, v0)) = &first_ok {
                         // values written with the schemas of one ordering read back with those of another
-                        cross_check(&mut out, &mut rng, p0, v0, p, v, &case);
+                        cross_check(&mut out, &mut rng, p0, v0, p, v, &case, set.kind);
                     }
                 } else {
                     normalised.push((p.clone(), o.clone()));
@@ -272,7 +272,7 @@ pub fn run(args: &[String]) -> i32 {
     0
 }
 
-fn cross_check(out: &mut Out, rng: &mut Rng, p0: &[usize], v0: &[Schema], p1: &[usize], v1: &[Schema], case: &str) {
+fn cross_check(out: &mut Out, rng: &mut Rng, p0: &[usize], v0: &[Schema], p1: &[usize], v1: &[Schema], case: &str, kind: &str) {
     // the schema of input `i` under both orderings
     let Some(i) = p0.first() else { return };
     let a = &v0[0];
@@ -291,10 +291,10 @@ fn cross_check(out: &mut Out, rng: &mut Rng, p0: &[usize], v0: &[Schema], p1: &[
     match catch(|| apache_avro::from_avro_datum_schemata(b, refs1.clone(), &mut &bytes[..], None)) {
         Ok(Ok(back)) => {
             if !value_eq(&back, &v) {
-                out.oracle_fail("cross-ordering-decode-differs", "a value written with the schema from one ordering reads back differently with the schema from another", case);
+                out.oracle_fail(&format!("cross-ordering-decode-differs: {kind}"), "a value written with the schema from one ordering reads back differently with the schema from another", case);
             }
         }
-        Ok(Err(e)) => out.oracle_fail("cross-ordering-decode-fails", &format!("a value written with the schema from one ordering does not read with the schema from another: {e}"), case),
+        Ok(Err(e)) => out.oracle_fail(&format!("cross-ordering-decode-fails: {kind}"), &format!("a value written with the schema from one ordering does not read with the schema from another: {e}"), case),
         Err(()) => out.oracle_fail("panic", "decoding panicked", case),
     }
     let _ = rs1;
